@@ -51,8 +51,20 @@ CHECKS = {
             'error value is demanded exactly where the statement names it (#N/A, #REF!). Held on the executions observed.',
             'Trusted: vf/xlref lookup semantics, openpyxl get_column_letter. Blank keys vs lookup value 0: either reading '
             'accepted (statement silent).'),
+    'C19': ('runtime monitoring: boundary observation of the raised exception vs the planted cells (oracle by construction)',
+            'Generated workbooks with planted suspicious fragments (constants and formulas, 1-2 per cell) and innocent cells at '
+            'random coordinates on 1-4 sheets are passed through the real Parser with the gate on and off; the exception class '
+            'and its suspicious_cells mapping are compared with the planted addresses and fragments. Held on the executions observed.',
+            'Trusted: openpyxl places cells where told. Cells mixing upper-case and lower-case calls are outside the precondition.'),
+    'C20': ('runtime monitoring: differential execution of the two runtimes on recorded in-situ arguments and synthetic tuples',
+            'Helper name sets and signatures of a generated class and of a trivial subclass of AbstractExcelInPython are compared; '
+            'every common helper is called in both with identical arguments - those recorded by a wrapper while real translations '
+            'are evaluated and synthetic hostile tuples per helper family - and results/exception classes compared. '
+            'Held on the calls observed.',
+            'Trusted: nothing but CPython; both sides are the real code. Arguments are sampled.'),
 }
 
+LEVELS = {}
 PENDING_REASON = 'check not built yet in this round (see DESIGN.md section 4); will be claimed once its monitor runs clean'
 
 
@@ -70,7 +82,7 @@ def main():
             'evidence_file': f'evidence/{pid}.json',
             'replay_cmd_template': f'./check {pid} --replay {{path}}',
             'engine': 'vf',
-            'level_claimed': {'category': 'exploration', 'text': text, 'design_ref': f'DESIGN.md section 4 {pid}'},
+            'level_claimed': {'category': LEVELS.get(pid, 'exploration'), 'text': text, 'design_ref': f'DESIGN.md section 4 {pid}'},
             'level_note': note,
             'technique': tech,
         })
